@@ -12,6 +12,7 @@ fn mk(name: &str, cfg: Cfg, alpha: Alpha, pfx: &str, depth: usize, min_depth: us
     let mut prop = SeqProp::new("C01", cfg, alpha);
     prop.prefix = prefix(pfx);
     prop.probe = probe;
+    prop.resync_after_prefix = pfx == "reopened_with_data";
     Pass { name: name.to_string(), prop, depth, min_depth, budget: Duration::from_secs_f64(secs), dedup_extra: 0, dedup_budget: Duration::ZERO }
 }
 
@@ -43,6 +44,8 @@ pub fn passes(tier: &str) -> Vec<Pass> {
         a.jrot = true;
         v.push(mk("2ks/small-journal-limit", Cfg { maxj: true, ..d.clone() }, a, "", if q { 4 } else { 6 }, 3, if q { 4.0 } else { 120.0 }, Probe::Lite));
     }
+    v.push(mk("wide/on-a-recovered-database", d.clone(), Alpha::wide(), "reopened_with_data", if q { 2 } else { 4 }, 2, if q { 3.0 } else { 120.0 }, Probe::Full));
+    v.push(mk("narrow/on-a-recovered-database", d.clone(), Alpha::narrow(false), "reopened_with_data", if q { 4 } else { 6 }, 3, if q { 3.0 } else { 120.0 }, Probe::Lite));
     v.push(mk("narrow/fifo", fifo.clone(), Alpha::narrow(false), "", if q { 3 } else { 6 }, 3, if q { 2.0 } else { 90.0 }, Probe::Lite));
     if !q {
         v.push(mk("wide/l6_l0_mem", d.clone(), Alpha::wide(), "l6_l0_mem", 3, 2, 80.0, Probe::Full));
